@@ -71,8 +71,12 @@ class Shot(EnableDisableMixin, ModeDevice):
         that's usually called when a player's turn starts since that was missed
         since the mode started after that.
         """
+        old_state, old_name = self.state, self.state_name
         super().device_loaded_in_mode(mode, player)
         self._update_show()
+        # the state now is the one of this player: tell placeholder subscribers
+        self.notify_virtual_change("state", old_state, self.state)              # type: ignore
+        self.notify_virtual_change("state_name", old_name, self.state_name)     # type: ignore
 
     def validate_and_parse_config(self, config: dict, is_mode_config: bool, debug_prefix: str = None):
         """Validate and parse shot config."""
@@ -273,11 +277,14 @@ class Shot(EnableDisableMixin, ModeDevice):
 
         Destroys it and removes it from the shots collection.
         """
+        old_state, old_name = self.state, self.state_name
         super().device_removed_from_mode(mode)
         self._remove_switch_handlers()
         if self.running_show:
             self.running_show.stop()
             self.running_show = None
+        self.notify_virtual_change("state", old_state, self.state)              # type: ignore
+        self.notify_virtual_change("state_name", old_name, self.state_name)     # type: ignore
 
     @event_handler(5)
     def event_hit(self, **kwargs):
